@@ -249,7 +249,7 @@ func c08build(rng *rand.Rand, l, pk string, plen int) []byte {
 		}
 	case "gre":
 		b0 := byte(0x80)
-		switch rng.Intn(10) {
+		switch rng.Intn(16) {
 		case 0:
 			b0 = 0 // no checksum
 		case 1:
@@ -307,7 +307,16 @@ func c08build(rng *rand.Rand, l, pk string, plen int) []byte {
 		h[10], h[11] = 0, 0
 		copy(h[20:], opts)
 	}
-	return append(h, payload...)
+	out := append(h, payload...)
+	if l == "tcp" {
+		// a flipped data-offset bit moves up to 40 payload bytes into the option area: keep option
+		// kind 30 (MPTCP, outside the model; its decoder has known index-out-of-range defects, C19)
+		// unreachable there as well
+		for j := len(h); j < len(out) && j < 60; j++ {
+			out[j] = c08safeOptByte(rng)
+		}
+	}
+	return out
 }
 
 // a 16-bit hole at pos (any parity) is solved so that the RFC 1071 checksum of the whole is target
@@ -338,6 +347,9 @@ func c08solve(l, pk string, src, dst, bs []byte, pos int, target uint16) bool {
 func c08solvePos(l string, bs []byte, hdrLen int) int {
 	if l == "ip4" {
 		return 4 // the payload is not covered by the header checksum
+	}
+	if l == "tcp" && len(bs)-2 < 60 {
+		return 14 // keep solved (arbitrary) bytes out of the potential option area
 	}
 	if len(bs)-hdrLen >= 2 {
 		return len(bs) - 2
@@ -434,14 +446,29 @@ func c08packetCase(rng *rand.Rand, l, pk string, plen int, target int, flipAllMa
 	bs := c08build(rng, l, pk, plen)
 	hl := c08hdrLen(l, bs)
 	off := c08fieldOff(l, bs)
+	var ops []string
 	if target >= 0 && off >= 0 {
-		c08solve(l, pk, src, dst, bs, c08solvePos(l, bs, hl), uint16(target))
+		cov := bs
+		if l == "ip4" {
+			cov = bs[:hl] // only the header is covered
+		}
+		ok := c08solve(l, pk, src, dst, cov, c08solvePos(l, bs, hl), uint16(target))
+		feasible := target != 0xffff // a sum of zero is impossible: version nibble, flag or protocol word is non-zero
+		if l == "icmp6" && len(bs)-hl < 2 {
+			feasible = false // no free 16-bit word
+		}
+		if feasible && !ok {
+			ops = append(ops, "selfcheck-solve-failed:"+l+pk) // generator defect: reported as a disagreement
+		}
 	}
-	ops := []string{c08op("emit", l, pk, src, dst, bs, "")}
+	ops = append(ops, c08op("emit", l, pk, src, dst, bs, ""))
 	full := append([]byte(nil), bs...)
 	var ck uint16
 	if off >= 0 {
 		ck = c08expected(l, c08wideSum(l, pk, src, dst, bs))
+		if l == "ip4" {
+			ck = c08expected(l, c08wideSum(l, pk, src, dst, bs[:hl]))
+		}
 		if l == "gre" && bs[0]&0x80 == 0 {
 			ck = 0 // routing only: field stays zero
 		}
@@ -449,7 +476,7 @@ func c08packetCase(rng *rand.Rand, l, pk string, plen int, target int, flipAllMa
 	}
 	wire := full
 	if l == "ip4" { // the emit op carries the header; verification sees header + payload
-		ops[0] = c08op("emit", l, pk, src, dst, bs[:hl], "")
+		ops[len(ops)-1] = c08op("emit", l, pk, src, dst, bs[:hl], "")
 	}
 	ops = append(ops, c08op("ver", l, pk, src, dst, wire, ""))
 	nbits := 8 * len(wire)
@@ -462,7 +489,11 @@ func c08packetCase(rng *rand.Rand, l, pk string, plen int, target int, flipAllMa
 				bits = append(bits, strconv.Itoa(b))
 			}
 		}
-		for i := 0; i < 6; i++ {
+		nr := 6
+		if len(wire) > 9000 {
+			nr = 2
+		}
+		for i := 0; i < nr; i++ {
 			add(rng.Intn(nbits))
 		}
 		if off >= 0 {
@@ -481,10 +512,12 @@ func c08packetCase(rng *rand.Rand, l, pk string, plen int, target int, flipAllMa
 	}
 	// stored-value variants: the other representation of zero, zero ("no checksum" for UDP), off by one
 	if off >= 0 && len(wire) <= 2000 {
+		seen := map[uint16]bool{ck: true}
 		for _, v := range []uint16{0, 0xffff, ck + 1, ck ^ 0xffff} {
-			if v == ck {
+			if seen[v] {
 				continue
 			}
+			seen[v] = true
 			alt := append([]byte(nil), wire...)
 			binary.BigEndian.PutUint16(alt[off:], v)
 			ops = append(ops, c08op("ver", l, pk, src, dst, alt, ""))
@@ -580,7 +613,7 @@ func (c08) Gen(rng *rand.Rand, tier string) []Case {
 		out = append(out, Case{Prop: "C08", Ops: []string{c08op("emit", "icmp4", "n", nil, nil, bs, ""), c08op("ver", "icmp4", "n", nil, nil, full, ""), c08op("flipall", "icmp4", "n", nil, nil, full, "")}})
 	}
 	// large packets, incl. > 65535 (IPv6 jumbograms; uint16 length wrap over IPv4)
-	nl := 36
+	nl := 18
 	if tier == "thorough" {
 		nl = 300
 	}
@@ -1115,6 +1148,10 @@ func (c08) runEmit(args []string, res *Result, tags map[string]bool) string {
 				tags["csum-fffe"] = true
 			}
 			tags["emit-"+l+"-"+pk] = true
+			switch want {
+			case 0, 1, 0xfffe, 0xffff:
+				tags[fmt.Sprintf("class-%s-%s-%04x", l, pk, want)] = true
+			}
 			if em != want {
 				res.Oracle = append(res.Oracle, fmt.Sprintf("C08:emit-reference\t%s%s/%s len=%d: emitted %#04x reference %#04x", wrap, l, pk, len(z), em, want))
 			}
